@@ -589,6 +589,20 @@ func (c *Ctx) claimsBeforePod() {
 		c.Bad("C06.2-claim-loop", "createPersistentVolumeClaims", cl.Decl.Pos(), "no claim lookup/create found")
 		return
 	}
+	// "a claim that cannot be created prevents the pod from being created": the pod create is blocked by the error
+	// this function returns (C06.2-claims-before-pod), so the failure of any claim's lookup or create has to be in
+	// that result -- not overwritten by a later claim's outcome, not dropped (the error discipline of C09, applied
+	// to the functions that hold the claim calls)
+	{
+		var scopes []errScope
+		hosts := map[*load.FuncInfo]bool{cl: true, c.hostOf(cl, pvcCreate): true, c.hostOf(cl, pvcGet): true}
+		for _, sc := range c.errorDisciplineScopes() {
+			if hosts[sc.fi] {
+				scopes = append(scopes, sc)
+			}
+		}
+		c.Floor("C06.2-claim-error-sites", c.errorDiscipline("C06.2-claim", scopes), 2)
+	}
 	loop, _ := innermostLoop(cl.Decl.Body, createTop).(*ast.RangeStmt)
 	cps := cl.Decl.Type.Params.List
 	okRange := false
